@@ -157,6 +157,33 @@ func gkvQuiet(f func()) {
 	f()
 }
 
+// gkvMute silences os.Stdout until the returned function is called; gkvLoud runs f with the real
+// stdout in between (for the harness' own report lines).
+var gkvRealStdout *os.File
+
+func gkvMute() (restore func()) {
+	if gkvDevNull == nil {
+		gkvDevNull, _ = os.OpenFile(os.DevNull, os.O_WRONLY, 0)
+	}
+	if gkvRealStdout != nil || gkvDevNull == nil {
+		return func() {}
+	}
+	gkvRealStdout = os.Stdout
+	os.Stdout = gkvDevNull
+	return func() { os.Stdout = gkvRealStdout; gkvRealStdout = nil }
+}
+
+func gkvLoud(f func()) {
+	if gkvRealStdout == nil {
+		f()
+		return
+	}
+	cur := os.Stdout
+	os.Stdout = gkvRealStdout
+	defer func() { os.Stdout = cur }()
+	f()
+}
+
 func gkvIDp(id platform.ID) *platform.ID { return &id }
 
 func gkvPermStr(p influxdb.Permission) string {
